@@ -47,6 +47,14 @@ def gen_pyfuns() -> str:
     # declared a list (calls with shape=None differ only in the text of the IndexError message)
     body += "\n" + py2lean.translate_function(
         U._maybe_correct_neg_dim, "maybeCorrectNegDim", [("dim", "int"), ("shape", "list"), ("ndim", "opt")], 1)
+    # translator self-test functions (harness/c18_selftest_funcs.py): every construct of the subset on operands the
+    # library functions never see; compared with CPython on grids by check_C18 (stream `translator_selftest`)
+    import c18_selftest_funcs as F
+    body += "\n" + py2lean.translate_function(F.st_divmod, "stDivmod", [("a", "int"), ("b", "int")], 2)
+    body += "\n" + py2lean.translate_function(F.st_clamp, "stClamp", [("x", "int"), ("lo", "int"), ("hi", "int")], 1)
+    body += "\n" + py2lean.translate_function(F.st_opt, "stOpt", [("x", "opt"), ("d", "int")], 1)
+    body += "\n" + py2lean.translate_function(F.st_guard, "stGuard", [("a", "int"), ("b", "int")], 1)
+    body += "\n" + py2lean.translate_function(F.st_loop, "stLoop", [("xs", "list"), ("k", "int")], 0)
     return HEADER + "namespace TdVerif.Gen\n\n" + body + "\nend TdVerif.Gen\n"
 
 
